@@ -105,8 +105,9 @@ type GenerateResult struct {
 func (h *FSEventHandler) HandleEvent(ctx context.Context, event fsnotify.Event) (result GenerateResult, err error) {
 	// Handle _templ.go files.
 	if !event.Has(fsnotify.Remove) && strings.HasSuffix(event.Name, "_templ.go") {
-		_, err = os.Stat(strings.TrimSuffix(event.Name, "_templ.go") + ".templ")
-		if !os.IsNotExist(err) {
+		// Only a template FILE makes the Go file its sibling: a directory that happens to be called x.templ does not.
+		info, err := os.Stat(strings.TrimSuffix(event.Name, "_templ.go") + ".templ")
+		if !os.IsNotExist(err) && (err != nil || !info.IsDir()) {
 			return GenerateResult{}, err
 		}
 		// File is orphaned.
